@@ -291,6 +291,30 @@ def collect(ctx, mode):
             groups.setdefault(gk, []).append(rec)
             recs.append(rec)
 
+    # --- several scales of ONE dataset written through ONE accessor object, stores of the
+    # scales interleaved: grids that lose a Morton bit from one scale to the next, scales
+    # with different sharding parameters and encodings --------------------------------
+    pyramids = [[(5, 3, 2), (3, 2, 1)], [(3, 3, 1), (2, 2, 1), (1, 1, 1)], [(4, 3, 2), (2, 2, 1)],
+                [(2, 5, 3), (1, 3, 2), (1, 2, 1)], [(6, 2, 2), (3, 1, 1)]]
+    for k in range(ctx.pick(10, 150)):
+        grids = pyramids[k % len(pyramids)]
+        same = k % 3 == 0
+        t0 = (ctx.rng.choice([0, 0, 1]), ctx.rng.choice([0, 1, 2]), ctx.rng.choice([0, 1, 2]))
+        cfgs = []
+        for g in grids:
+            pb, mb, sb = t0 if same else (ctx.rng.choice([0, 0, 1]), ctx.rng.choice([0, 1, 2]), ctx.rng.choice([0, 1, 2]))
+            enc = ctx.rng.choice(["raw", "gzip"])
+            cfgs.append({"grid": list(g), "pb": pb, "mb": mb, "sb": sb, "enc": enc,
+                         "ienc": enc if ctx.rng.random() < 0.7 else ctx.rng.choice(["raw", "gzip"])})
+        order = [(j, p) for j, c in enumerate(cfgs) for p in sd.all_pos(c["grid"]) if ctx.rng.random() < 0.9]
+        if k % 2:
+            ctx.rng.shuffle(order)          # interleaved; else scale after scale (compute-scales order)
+        salt = ctx.rng.randrange(1 << 30)
+        rs = sd.run_multiscale(work, cfgs, order, strategy=ctx.rng.choice(["in memory", "in memory", "on disk"]), salt=salt)
+        for r in rs:
+            groups.setdefault(json.dumps([cfgs, order, salt, r["scale"], "multiscale"]), []).append(r)
+            recs.append(r)
+
     framing = set()
     for gk, rs in groups.items():
         hashes = sorted({r["hash"] for r in rs})
@@ -334,7 +358,8 @@ def run(ctx):
             ctx.violation(clause, sig_of(rec, clause),
                           {"cfg": rec["cfg"], "enc": rec["enc"], "ienc": rec.get("ienc"), "strategy": rec["strategy"],
                            "order": [s["pos"] for s in rec["stores"]],
-                           "storeerr": rec["storeerr"], "files": rec["files"]})
+                           "storeerr": rec["storeerr"], "files": rec["files"],
+                           "multiscale": rec.get("multiscale"), "scale": rec.get("scale")})
     for rec, case in cases[:2]:
         ctx.sample({"cfg": rec["cfg"], "enc": rec["enc"], "order": [s["pos"] for s in rec["stores"]],
                     "files": [{"name": f["name"], "len": f["len"], "index": f["index"]} for f in rec["files"]],
@@ -347,9 +372,14 @@ def replay(ctx, path):
     d = rp["detail"]
     work = ctx.scratch("verif_shard_")
     cfg = dict(d["cfg"], enc=d.get("enc", "raw"), ienc=d.get("ienc"))
-    rec = sd.run_session(work, cfg, [tuple(p) for p in d["order"]],
-                         strategy=d.get("strategy", "in memory"), salt=0)
-    sd.drop_dir(rec)
+    if d.get("multiscale"):
+        m = d["multiscale"]
+        rec = sd.run_multiscale(work, m["cfgs"], [(j, tuple(q)) for j, q in m["order"]],
+                                strategy=m["strategy"], salt=m["salt"])[d["scale"]]
+    else:
+        rec = sd.run_session(work, cfg, [tuple(p) for p in d["order"]],
+                             strategy=d.get("strategy", "in memory"), salt=0)
+        sd.drop_dir(rec)
     case = case_from(rec, ctx.prop)
     v = ctx.judge("Trace_Shard", [case])
     print("replay verdict:", v[1])
